@@ -37,6 +37,10 @@ def gen_history(rng, maxlen):
                 p = r + ('/' + sub if sub else '') + '/' + nm
                 nodes.append(['f', p, 'content of ' + p])
                 files.append(p)
+    if rng.random() < 0.3:
+        p = rng.choice(roots) + '/' + '/'.join(['\u6f22' * 80] * rng.choice([6, 7])) + '/report.txt'
+        nodes.append(['f', p, 'content of a file with a long path'])
+        files += [p] * 4
     # entries already in the trash when the history starts: in EVERY usable directory (home, .Trash/$uid when secure, .Trash-$uid)
     initial = []
     k0 = 0
